@@ -19,7 +19,8 @@ CVerdict(c) ==
   [enough   |-> CAEnough(c.n, c.t, c.es, c.target),
    weight   |-> CAWeight(c.n, c.t, c.es, c.target),
    offByOne |-> CAOffByOne(c.n, c.t, c.es, c.target),
-   impl     |-> CAImplAccepts(c.n, c.t, c.es, c.target)]
+   impl     |-> CAImplAccepts(c.n, c.t, c.es, c.target),
+   implCount |-> CAImplCount(c.n, c.t, c.es, c.target)]
 
 Universe(n, t) == {[id |-> i, b |-> b, sig |-> s] : i \in 1..(n + 1), b \in VFBlocks(t), s \in Sigs}
 
@@ -43,7 +44,8 @@ RandEntries(n, t, k, near, clean) ==
 RandCase ==
   LET t == RE(Trees)
       n == RE(Ns)
-      tg == RE(VFBlocks(t))
+      (* mostly a target above the (already final) root *)
+      tg == IF Len(t) > 1 /\ RE(1..6) # 1 THEN RE(2..Len(t)) ELSE RE(VFBlocks(t))
       near == {b \in VFBlocks(t) : VFGeq(t, b, tg)}
       clean == RE(1..2) = 1
       (* sizes around the two-thirds boundary *)
